@@ -24,7 +24,7 @@ members to typed unknowns true of the replaced part.
 import CtyModel.Props.C11
 import CtyModel.Lemmas.CoversWeaken
 import CtyModel.Lemmas.C12Funcs
-import CtyModel.Lemmas.d12bKnown
+import CtyModel.Lemmas.d12bStrlen
 namespace CtyModel
 namespace C12
 open Fn Std
@@ -768,6 +768,26 @@ theorem known_in_known_out_reverse_values (E : Stdlib.Env) (v r : Value) (hk : v
     · exact Or.inr h
     · exact Or.inl (D12b.knownOut_values E v r rt hm hk h)
 
+/-- **`strlen`** (`AllowUnknown`, `AllowDynamicType`; model with the unknown branch: Stdlib/d12bStrlen.lean, tied to
+`StrlenFunc.Call` on unknown arguments).  An unknown string with the refined prefix `p` gives an unknown number
+with the inclusive lower bound "grapheme clusters of `p`"; `cty.DynamicVal` gives the unknown number.  `hlaw` is
+the one thing asked of the external segmentation library (`clusters` is a parameter): a prefix the unknown can
+carry has at most as many clusters as the string — probed on every generated pair
+(`textseg:clusters-of-range-prefix-at-most-clusters-of-string`). -/
+theorem sound_strlen (clusters : String → List String) (s : String) (w r : Value) (hmw : w.containsMarked = false)
+    (hty : w.ty = .string ∨ (w.ty = .dyn ∧ w.isKnown = false)) (hc : CoversX w ⟨.string, .s s⟩ = true)
+    (hlaw : ∀ p, (p = "" ∨ Value.hasPrefix s p = true) →
+      Stdlib.clusterCount (clusters p) ≤ Stdlib.clusterCount (clusters s))
+    (hrwf : Ty.wf r.ty = true) (hrefl : Covers r r = true)
+    (hr : (callUnrefined Stdlib.strlenSpec Stdlib.strlenType (Stdlib.strlenImplU clusters) [⟨.string, .s s⟩]).1 = .ok r) :
+    ∃ r', (callUnrefined Stdlib.strlenSpec Stdlib.strlenType (Stdlib.strlenImplU clusters) [w]).1 = .ok r' ∧
+      Covers r' r = true :=
+  impl_soundness_lifts_to_call _ _ _ [⟨.string, .s s⟩] [w] r (fun _ => D12b.typeMonoAt_of_eq rfl)
+    (fun t ht => by cases ht; rfl) (by simp [Value.isKnown, Payload.isKnown, Payload.unmark1])
+    (by simp [Value.containsMarked, Payload.containsMarked]) (by simpa using hmw)
+    (one_arg_cover hc) ⟨hty.elim Or.inl (fun h => Or.inr (by rw [h.1]; rfl)), trivial⟩ hrwf hrefl
+    (fun _ _ => D12b.strlen_implSound clusters s w hty hmw hc hlaw) hr
+
 /-! ### the hypotheses are satisfiable -/
 
 example : TypeMonoW (C11.staticType (.list .string)) := static_typeMonoW _
@@ -948,6 +968,20 @@ example : ∃ r', (callUnrefined Stdlib.lookupSpec (Stdlib.lookupType {}) (Stdli
     (Value.unknown .number) ⟨.number, .n (.fin false 1 0 64)⟩ .number rfl rfl (by decide) (by decide) (by decide) (by decide) (by decide)
     (by decide) (by decide) (by decide) (by decide) (by decide) (by decide) (Or.inl rfl) (Or.inl rfl) (Or.inl rfl)
     (by decide) (by decide) (by decide) (by decide) (by decide) (by rfl)
+
+
+/-- `strlen("ab")` with the string unknown (not null), and as `cty.DynamicVal` -/
+example : ∃ r', (callUnrefined Stdlib.strlenSpec Stdlib.strlenType (Stdlib.strlenImplU fun _ => ["x"]) [⟨.string, .unk (.nullable .f)⟩]).1 = .ok r' ∧
+    Covers r' (Value.intVal 1) = true :=
+  sound_strlen (fun _ => ["x"]) "ab" ⟨.string, .unk (.nullable .f)⟩ (Value.intVal 1) (by decide) (Or.inl rfl) (by decide)
+    (fun _ _ => Nat.le_refl _) (by decide) (by decide) (by rfl)
+example : ∃ r', (callUnrefined Stdlib.strlenSpec Stdlib.strlenType (Stdlib.strlenImplU fun _ => ["x"]) [Value.dynVal]).1 = .ok r' ∧
+    Covers r' (Value.intVal 1) = true :=
+  sound_strlen (fun _ => ["x"]) "ab" Value.dynVal (Value.intVal 1) (by decide) (Or.inr ⟨rfl, rfl⟩) (by decide)
+    (fun _ _ => Nat.le_refl _) (by decide) (by decide) (by rfl)
+/-- what the model answers for a refined prefix: the lower bound is the number of clusters of the prefix -/
+example : (callUnrefined Stdlib.strlenSpec Stdlib.strlenType (Stdlib.strlenImplU fun _ => ["a", "b"]) [⟨.string, .unk (.str .f "ab")⟩]).1 =
+    .ok ⟨.number, .unk (.num .u (some ⟨Num.ofInt 2 64, true⟩) none)⟩ := by rfl
 
 end C12
 end CtyModel
